@@ -35,6 +35,8 @@ ASSUMPTIONS = [
 
 RAW = 'pgradd/ThermoChem/raw_data.py'
 INC = 'pgradd/ThermoChem/incomplete.py'
+BASE = 'pgradd/ThermoChem/base.py'
+GDATA = 'pgradd/ThermoChem/group_data.py'
 
 
 def A(name):
@@ -666,3 +668,8 @@ def run(chk, repo, tier):
     check_constructor(chk, repo)
     check_wrapper(chk, repo)
     check_gort(chk, repo, rule='R05.7')
+    # G/RT = H/RT - S/R is computed by an inherited method that calls
+    # self.get_SoR(T, S_elements=...): every correlation class must accept it
+    from .. import sweeps
+    sweeps.override_compat(chk, repo, 'R05.9', rels=[BASE, RAW, INC, GDATA],
+                           minimum=20)
